@@ -7,7 +7,7 @@
     nodetest_table_sound axis_table_sound pred_eval_sound pred_outcome_sound
     substring_not_xpath ne_absent_not_xpath step_matches_eq_xp parser_rejects_outside
     select_eq_xp_step select_eq_xp_chain select_eq_xp_childpath select_eq_xp_union
-    parser_accepts_subset_partial
+    select_eq_xp_nonpositional parser_accepts_subset_partial
 -/
 import Genshi.Model.Path
 import Genshi.Model.PathParse
@@ -21,6 +21,7 @@ import Genshi.Lemmas.PathChain
 import Genshi.Lemmas.PathParseChain
 import Genshi.Lemmas.PathChildPath
 import Genshi.Lemmas.PathUnion
+import Genshi.Lemmas.PathGeneric
 namespace Genshi.Props.C05
 open Genshi Genshi.Path
 
@@ -610,6 +611,148 @@ example : select [[⟨.child, .localName false ['b'], []⟩],
         Node.elem ⟨[], ['b']⟩ [] []]).flatten
     = [.ev (.start ⟨[], ['c']⟩ []), .ev (.end_ ⟨[], ['c']⟩),
        .ev (.start ⟨[], ['b']⟩ []), .ev (.end_ ⟨[], ['b']⟩)] := by decide +kernel
+
+/-! ## Stage 2 in general, for paths without position tests -/
+
+/-- the steps GenericStrategy works with keep the static hypotheses -/
+theorem stepsOk_gSteps (ns : NsMap) (vs : Vars) (p : LocPath) (hp : StepsOk ns vs p) :
+    StepsOk ns vs (gSteps p false) := by
+  obtain ⟨s0, rest, rfl⟩ : ∃ s0 rest, p = s0 :: rest := by
+    cases p with
+    | nil => have := hp.ne; simp at this
+    | cons a b => exact ⟨a, b, rfl⟩
+  have hds : StepsOk ns vs (dotSlash :: s0 :: rest) := by
+    refine ⟨by simp, ?_, ?_, ?_, ?_⟩
+    · intro s hs
+      rcases List.mem_cons.mp hs with h | h
+      · subst h; simp [dotSlash]
+      · exact hp.na s h
+    · intro s hs
+      rcases List.mem_cons.mp hs with h | h
+      · subst h; simp [dotSlash, NodeTest.elemWf]
+      · exact hp.wf s h
+    · intro s hs
+      rcases List.mem_cons.mp hs with h | h
+      · subst h; simp [dotSlash]
+      · exact hp.typed s h
+    · intro s hs
+      rcases List.mem_cons.mp hs with h | h
+      · subst h; simp [dotSlash]
+      · exact hp.nonpos s h
+  simp only [gSteps, Bool.false_eq_true, if_false]
+  split
+  · exact hds
+  · exact hp
+
+/-- at the root, position 0 of GenericStrategy's step list stands for the path itself -/
+theorem RR_gSteps (ns : NsMap) (vs : Vars) (p : LocPath) (hp : StepsOk ns vs p)
+    (tag : QName) (attrs : AttrList) (kids : List Node) (t : Ref.LNode) :
+    RR ns (toXVars vs) (gSteps p false) 0 ⟨[], .elem tag attrs kids⟩ t
+      = Ref.reach ns (toXVars vs) p ⟨[], .elem tag attrs kids⟩ t := by
+  obtain ⟨s0, rest, rfl⟩ : ∃ s0 rest, p = s0 :: rest := by
+    cases p with
+    | nil => have := hp.ne; simp at this
+    | cons a b => exact ⟨a, b, rfl⟩
+  have hna := hp.na s0 List.mem_cons_self
+  simp only [gSteps, Bool.false_eq_true, if_false]
+  cases hax : s0.axis with
+  | «attribute» => exact absurd hax hna
+  | child =>
+    simp only [RR, pathAt, List.drop_zero, convAxis, dotSlash, withAxis, beq_self_eq_true, Bool.true_or, if_true]
+    rw [reach_self ns (toXVars vs) _ _ (by intro q hq; simp at hq) rfl]
+    simp [hitR, Ref.testNode]
+  | descendant =>
+    simp only [RR, pathAt, List.drop_zero, convAxis, dotSlash, withAxis, beq_self_eq_true, Bool.true_or,
+      Bool.or_true, if_true]
+    rw [reach_self ns (toXVars vs) _ _ (by intro q hq; simp at hq) rfl]
+    simp [hitR, Ref.testNode]
+  | self =>
+    have h1 : (Axis.self == Axis.child || Axis.self == Axis.attribute || Axis.self == Axis.descendant) = false := by decide
+    simp only [h1, Bool.false_eq_true, if_false, RR, pathAt, List.drop_zero, hax, convAxis]
+    congr 2
+    cases s0; simp_all [withAxis]
+  | descendantOrSelf =>
+    have h1 : (Axis.descendantOrSelf == Axis.child || Axis.descendantOrSelf == Axis.attribute
+                || Axis.descendantOrSelf == Axis.descendant) = false := by decide
+    simp only [h1, Bool.false_eq_true, if_false, RR, pathAt, List.drop_zero, hax, convAxis]
+    congr 2
+    cases s0; simp_all [withAxis]
+
+theorem nodeFor_gSteps (ns : NsMap) (vs : Vars) (p : LocPath) (n : Node) (h : NodeFor p ns vs n) :
+    NodeFor (gSteps p false) ns vs n := by
+  obtain ⟨h1, h2, h3, h4⟩ := h
+  refine ⟨h1, h2, h3, ?_⟩
+  cases p with
+  | nil => intro s hs; simp [gSteps] at hs
+  | cons s0 rest =>
+    simp only [gSteps, Bool.false_eq_true, if_false]
+    split
+    · intro s hs
+      rcases List.mem_cons.mp hs with h | h
+      · subst h; intro q hq; simp [dotSlash] at hq
+      · exact h4 s h
+    · exact h4
+
+/-- a path without position tests under GenericStrategy as an operand of a union -/
+theorem operand_nonpositional (p : LocPath) (ns : NsMap) (vs : Vars) (hp : StepsOk ns vs p)
+    (tag : QName) (attrs : AttrList) (kids : List Node)
+    (hcl : (Node.elem tag attrs kids).clean = true)
+    (hnodes : AllNodes (NodeFor p ns vs) (.elem tag attrs kids)) :
+    Operand ns vs (toXVars vs) (.elem tag attrs kids) p (.generic (gSteps p false)) (.g gInit) := by
+  have hS := stepsOk_gSteps ns vs p hp
+  refine ⟨?_, ?_, ?_⟩
+  · rw [runTest_generic']
+    exact okVals_run _ (gStep_out _ ns vs (fun e => hS.lastResult ns vs e)) _ [] _
+  · intro x
+    rw [runTest_generic', generic_nonpos_marks ns vs _ hS _ hcl
+      (AllNodes.imp (fun n hn => nodeFor_gSteps ns vs p n hn) _ hnodes) x]
+    exact RR_gSteps ns vs p hp tag attrs kids x
+  · cases hl : p.getLast? with
+    | none =>
+      have := List.getLast?_eq_none_iff.mp hl
+      have h0 := hp.ne
+      simp [this] at h0
+    | some last => exact ⟨last, rfl, hp.na last (List.mem_of_getLast? hl)⟩
+
+/-- **select_eq_xp**, stage 2 for every path without position tests.  Let `p = s1/…/sn` be
+    any location path over the child, descendant, descendant-or-self and self axes — in any
+    mixture and at any place, so `a//b`, `.//b/c`, `descendant::a/self::a[@x]/b`,
+    `a/descendant-or-self::node()/b[@k="v"]` … — with any node tests and any predicates that are
+    not position tests (statically not a number: `Expr.numTyped`).  Then for every element tree
+    `Path.select` under GenericStrategy delivers exactly `Ref.xpSelect`: the outermost nodes
+    of the XPath node set of `p`, in document order, with their subtrees.
+
+    Proof: without position tests the counters of GenericStrategy never influence a result
+    (`gStep_abstract`: it runs like a machine over sorted position lists, the counter lists
+    only serving as the "handed down by the parent" flag); the `while pos_queue` loop keeps
+    designating the same node set (`aLoop_sem`: `Phi` — queue entries, `matched` and
+    `next_pos`, each read through the reference semantics unfolded one tree level,
+    `RR_unfold` / `reach_drop` — is invariant; the sortedness invariant is what makes the
+    code's "merge into the head of the queue" correct); induction over the tree (`aTree`);
+    `emitV_pick` / `select_union` for the outermost-subtree emission.
+    Hypotheses as for `select_eq_xp_childpath`. -/
+theorem select_eq_xp_nonpositional (p : LocPath) (ns : NsMap) (vs : Vars) (hp : StepsOk ns vs p)
+    (tag : QName) (attrs : AttrList) (kids : List Node)
+    (hcl : (Node.elem tag attrs kids).clean = true)
+    (hnodes : AllNodes (NodeFor p ns vs) (.elem tag attrs kids)) :
+    select [p] ns vs (Node.elem tag attrs kids).flatten (some .generic)
+      = Ref.xpSelect [p] ns (toXVars vs) (.elem tag attrs kids) := by
+  have hrok : (Node.elem tag attrs kids).ok = true := ok_of_clean _ hcl
+  have hok : okList kids = true := by simpa [Node.ok] using hrok
+  unfold select
+  simp only [pathTest, List.map_cons, List.map_nil, mkMatcher]
+  exact select_union ns vs (toXVars vs) tag attrs kids hok [p] _ _
+    (.cons (operand_nonpositional p ns vs hp tag attrs kids hcl hnodes) .nil)
+
+-- non-vacuity: `a//c[@k]` (child, descendant-or-self::node(), child with an attribute predicate)
+-- on <r><a><b><c k="1"/><c/></b></a><c k="2"/></r> selects only the first <c>
+example : select [[⟨.child, .localName false ['a'], []⟩, ⟨.descendantOrSelf, .node, []⟩,
+                   ⟨.child, .localName false ['c'], [.test (.localName true ['k'])]⟩]] [] []
+    (Node.elem ⟨[], ['r']⟩ [] [
+       Node.elem ⟨[], ['a']⟩ [] [Node.elem ⟨[], ['b']⟩ []
+         [Node.elem ⟨[], ['c']⟩ [(⟨[], ['k']⟩, ['1'])] [], Node.elem ⟨[], ['c']⟩ [] []]],
+       Node.elem ⟨[], ['c']⟩ [(⟨[], ['k']⟩, ['2'])] []]).flatten (some .generic)
+    = [.ev (.start ⟨[], ['c']⟩ [(⟨[], ['k']⟩, ['1'])]), .ev (.end_ ⟨[], ['c']⟩)] := by decide +kernel
 
 /-! ## Witnesses of the recorded findings: the full statement is false of the model there -/
 
